@@ -5,7 +5,7 @@
   size, i.e. whatever the LPC analysis, the Rice estimate or the partition search produced.
 -/
 import FlacModel.Proofs.Bits
-import FlacModel.Gen.Kernels
+import FlacModel.Gen.KernelsEnc
 import FlacModel.Gen.Resid
 
 namespace Flac.C19
